@@ -107,7 +107,11 @@ class IGen:
         lo, hi = (-(1 << (w - 1)), (1 << (w - 1)) - 1) if sgn else (0, (1 << w) - 1)
         v = rng.choice([lo, hi, 0, 1 if hi >= 1 else 0, rng.randint(lo, hi)])
         return ('%d' % v if v < 2**31 else '%dUL' % v), v
-    def init(self, t, path, top=False):
+    def override_ok(self, t):
+        """subobjects whose re-initialization by a later designator has one meaning: scalars, and character arrays given a string
+        (a braced list for an aggregate that was already partly initialized is the open finding C05-braced-override-merges)"""
+        return t[0] == 's' or (t[0] == 'a' and t[2] == ('s', 'char'))
+    def init(self, t, path, top=False, force_string=False):
         """a (text, complete) pair; complete = every leaf under t was given a value (so braces may be elided around it)"""
         rng = self.rng
         if t[0] == 's':
@@ -115,7 +119,7 @@ class IGen:
             return (txt if rng.random() < 0.9 else '{ %s }' % txt), True
         if t[0] == 'a':
             n = t[1]; e = t[2]
-            if e == ('s', 'char') and rng.random() < 0.7:
+            if e == ('s', 'char') and (force_string or rng.random() < 0.7):
                 ln = rng.randint(0, n)          # n characters exactly fills without the terminator
                 s = ''.join(rng.choice('abcxyz019') for _ in range(ln))
                 for i in range(n): self.exp['%s[%d]' % (path, i)] = ord(s[i]) if i < ln else 0
@@ -134,6 +138,9 @@ class IGen:
                     txt, c = self.init(e, '%s[%d]' % (path, i)); parts.append('[%d] = %s' % (i, txt))
                     if i + 1 < n and (i + 1) not in idxs and rng.random() < 0.3:
                         txt2, c2 = self.init(e, '%s[%d]' % (path, i + 1)); parts.append(txt2); idxs = idxs + [i + 1]
+                # 6.7.9p19: a later initializer for the same subobject overrides the earlier one (a shorter string must clear the longer one)
+                while self.override_ok(e) and rng.random() < 0.4:
+                    i = rng.choice(idxs); txt, c = self.init(e, '%s[%d]' % (path, i), force_string=True); parts.append('[%d] = %s' % (i, txt))
                 complete = False
                 body = ', '.join(parts)
             elif e[0] == 's' and n >= 2:   # range designator followed by a positional item
@@ -172,6 +179,9 @@ class IGen:
                 else:
                     txt, c = self.init(mt, sub); parts.append(self.maybe_elide(txt, c, mt)); complete = complete and c
             complete = complete and cnt == len(ms)
+            ov = [m for m in ms[:cnt] if m[0] is not None and m[2] is None and self.override_ok(m[1])]
+            if ov and rng.random() < 0.25:
+                mn, mt, w = rng.choice(ov); txt, c = self.init(mt, '%s.%s' % (path, mn), force_string=True); parts.append('.%s = %s' % (mn, txt)); complete = False
         else:
             cands = [m for m in ms if m[0] is not None]
             if not cands:
@@ -184,6 +194,9 @@ class IGen:
                     else: txt, c = self.init(mt, sub)
                     # nested designator path for a member of a named struct member
                     parts.append('.%s = %s' % (mn, txt))
+                ov = [m for m in order if m[2] is None and self.override_ok(m[1])]
+                while ov and rng.random() < 0.4:
+                    mn, mt, w = rng.choice(ov); txt, c = self.init(mt, '%s.%s' % (path, mn), force_string=True); parts.append('.%s = %s' % (mn, txt))
                 complete = False
         return '{ %s%s }' % (', '.join(parts), ',' if rng.random() < 0.3 else ''), complete
     def maybe_elide(self, txt, complete, t):
@@ -298,6 +311,8 @@ def main():
         'struct A { int x; struct { int b[3]; struct { char c; short s; } in[2]; } a; }; struct A s1 = { .a.in[1].s = 5, .a.b[2] = 7, 8 }; int m[2][3] = { [1][1] = 4, 5, [0] = { [2] = 9 } }; int main(void) { struct A s2 = { .a.in[1].s = 5, .a.b[2] = 7, 8 }; int n[2][3] = { [1][1] = 4, 5, [0] = { [2] = 9 } }; printf("%d %d %d %d %d | %d %d %d %d %d | %d %d %d %d | %d %d %d %d\\n", s1.x, s1.a.b[2], s1.a.in[0].c, s1.a.in[1].s, s1.a.in[1].c, s2.x, s2.a.b[2], s2.a.in[0].c, s2.a.in[1].s, s2.a.in[1].c, m[0][2], m[1][1], m[1][2], m[0][0], n[0][2], n[1][1], n[1][2], n[0][0]); return 0; }',
         'int x[6] = {[1 ... 3] = 7, 8}; int main(void) { int y[6] = {[1 ... 3] = 7, 8}; for (int i = 0; i < 6; i++) printf("%d %d ", x[i], y[i]); printf("\\n"); return 0; }',
         'struct B { unsigned a : 3; int : 0; int b : 5; _Bool c : 1; long d : 40; }; struct B gb = { 7, -3, 1, -12345678901 }; union U { char c[5]; int i; } gu = { .i = 0x01020304 }, gv = { "ab" }; int main(void) { struct B lb = { 7, -3, 1, -12345678901 }; printf("%d %d %d %ld | %d %d %d %ld | %d %d\\n", gb.a, gb.b, gb.c, (long)gb.d, lb.a, lb.b, lb.c, (long)lb.d, gu.c[0], gv.c[1]); return 0; }',
+        'struct R { char name[8]; int k; char t[3][4]; }; struct R gr = { "default", 1, { "xyz", "xyz", "xyz", [1] = "a" }, .name = "ab" }; int ga[4] = { 1, 2, 3, 4, [1] = 9 }; int main(void) { struct R lr = { "default", 1, { "xyz", "xyz", "xyz", [1] = "a" }, .name = "ab" }; for (int i = 0; i < 8; i++) printf("%d %d ", gr.name[i], lr.name[i]); for (int i = 0; i < 12; i++) printf("%d %d ", ((char *)gr.t)[i], ((char *)lr.t)[i]); printf("%d %d\\\\n", ga[1], ga[2]); return 0; }',
+        'struct P { int x, y; }; struct Q { struct P p; int z; }; struct Q q = { {1, 2}, 3, .p = {7} }; int x[2][3] = {1, 2, 3, 4, 5, 6, [0] = {7, 8}}; int main(void) { struct Q lq = { {1, 2}, 3, .p = {7} }; printf("%d %d %d | %d %d | %d %d %d\\\\n", q.p.x, q.p.y, q.z, lq.p.x, lq.p.y, x[0][0], x[0][1], x[0][2]); return 0; }',
         'struct F { int n; char d[]; }; static struct F f = { 3, "ab" }; struct F2 { int n; int d[]; }; struct F2 g = { 1, {1, 2, 3} }; int main(void) { printf("%ld %ld\\\\n", (long)sizeof f, (long)sizeof g); return 0; }',
     ]
     for i, body in enumerate(CORPUS):
@@ -306,7 +321,7 @@ def main():
         evals += 1; nontriv += 1; count('corpus-program')
         if o2 is None: run.corr_broken.append('corpus program %d fails under gcc: %s' % (i, w2)); continue
         if o1 != o2:
-            run.violation(dict(kind='initializer-value', program=open(f).read(), chibicc=o1 if o1 is not None else w1, gcc=o2), dict(area='init', construct='fam-sizeof' if i == len(CORPUS) - 1 else 'corpus-%d' % i))
+            run.violation(dict(kind='initializer-value', program=open(f).read(), chibicc=o1 if o1 is not None else w1, gcc=o2), dict(area='init', construct='fam-sizeof' if i == len(CORPUS) - 1 else 'braced-override' if i == len(CORPUS) - 2 else 'corpus-%d' % i))
 
 
     # ---------------- address constants into aggregates (C11 6.6p9): array members, partial indexing, &member, pointer arithmetic ----------------
